@@ -29,7 +29,9 @@ PROPS = {
     'C04': dict(engine='codec', modes=['lang'], witness=True, values=(6, 14)),
     'C05': dict(engine='codec', modes=['cut'], witness=False, values=(8, 60)),
     'C06': dict(engine='codec', modes=['cap'], witness=False, values=(10, 150)),
-    'C10': dict(engine='codec', modes=['fault'], witness=False, values=(10, 150)),
+    'C10': dict(witness=False, stages=[
+        dict(engine='codec', modes=['fault'], values=(10, 150)),
+        dict(engine='single', name='rpc', builder='build_rpc', runs=[['--mode', 'rpcfault']], shards=2)]),
     'C11': dict(engine='codec', modes=['prior'], witness=False, values=(8, 40)),
     # engine 'util': harness/util_main.cpp (single binary); the model is the contract itself
     'C16': dict(engine='util', modes=['rseq', 'wseq'], witness=True),
